@@ -471,6 +471,41 @@ func ruleC06_1(c *Ctx) {
 			}
 		}
 		if exp == nil {
+			// an expiry check that only runs deferred decides the result after everything else has happened
+			deferred := false
+			for _, b := range e.f.Blocks {
+				for _, in := range b.Instrs {
+					df, ok := in.(*ssa.Defer)
+					if !ok {
+						continue
+					}
+					var g *ssa.Function
+					if mc, ok := df.Call.Value.(*ssa.MakeClosure); ok {
+						g, _ = mc.Fn.(*ssa.Function)
+					} else {
+						g = df.Call.StaticCallee()
+					}
+					if g == nil {
+						continue
+					}
+					if c.expiryCheckerLike(g, 0) >= 0 {
+						deferred = true
+					}
+					for _, ic := range allCalls(g) {
+						if c.expiryCheckerLike(ic.Common().StaticCallee(), 0) >= 0 {
+							deferred = true
+						}
+					}
+					if deferred {
+						c.bad(R, fn, "expiry check", df.Pos(), "the expiry check is deferred: it runs when the entry point returns, after links were loaded and the inspection commands were executed; an expired or undated layout must be refused before any of that")
+					}
+				}
+			}
+			if deferred {
+				continue
+			}
+		}
+		if exp == nil {
 			c.bad(R, fn, "expiry check", e.f.Pos(), "no call of an expiry check (a function that parses layout.Expires and compares it with the clock, e.g. VerifyLayoutExpiration) on the verified layout")
 			continue
 		}
